@@ -42,7 +42,10 @@ PROPS = {
             "(nested dicts as read-only mapping objects, three nested loop invariants) yields ONLY entries that exist in the "
             "data under the object type spelled `domain:otype` with the FIRST colon as separator, whose four coordinates are "
             "each accepted by match_with_wildcard, with project / version / location copied from the entry and no base URL "
-            "(soundness of the result; that NO matching entry is missing and the order are bounded only).  What the regex engine "
+            "(soundness of the result; that NO matching entry is missing and the order are bounded only); filter_inventories "
+            "(MyST's own representation, TypedDicts read by literal key) likewise yields only entries that exist under "
+            "inventory / domain / type / name with all four filters accepting, project data from that inventory and "
+            "location / text from that entry - the same statement for both representations.  What the regex engine "
             "matches (re.escape / '.*' / fullmatch semantics) is an ASSUMED contract of the stdlib and is cross-checked "
             "only by the BOUNDED stand-in: match_with_wildcard against the statement's matching relation for all short "
             "(pattern, name) pairs, and filter_inventories / filter_sphinx_inventories against the nested-loop "
